@@ -148,3 +148,35 @@ pub fn run_batch(
     o.wall_s = t0.elapsed().as_secs_f64();
     o
 }
+
+/// Digests of runs 0..n of a family (for the determinism self-test). `reverse` walks the
+/// indices in the opposite order so that each seed lands at a different batch position.
+pub fn digests(family: Family, base_seed: u64, n: u64, threads: usize, reverse: bool) -> Vec<u64> {
+    let next = Arc::new(AtomicU64::new(0));
+    let out = Arc::new(Mutex::new(vec![0u64; n as usize]));
+    let mut hs = Vec::new();
+    for _ in 0..threads {
+        let (next, out) = (next.clone(), out.clone());
+        hs.push(std::thread::spawn(move || {
+            loop {
+                let k = next.fetch_add(1, Ordering::Relaxed);
+                if k >= n {
+                    break;
+                }
+                let i = if reverse { n - 1 - k } else { k };
+                let r = run_one(family, Mode::Search(run_seed(base_seed, family, i)));
+                let mut f = crate::rng::Fnv::default();
+                f.write_u64(r.digest);
+                f.write_u64(r.choices.len() as u64);
+                for v in check_all(&r) {
+                    f.write_str(&v.key);
+                }
+                out.lock().unwrap()[i as usize] = f.0;
+            }
+        }));
+    }
+    for h in hs {
+        let _ = h.join();
+    }
+    Arc::try_unwrap(out).unwrap().into_inner().unwrap()
+}
